@@ -20,8 +20,11 @@ AllQuirks == {
   "mapBytesType"         \* map<string,bytes>: value Go type cut after the last ']'
 }
 
+\* repaired by "fix:" commits in /repo (see /verif/known_findings.json, section fixed)
+FixedQuirks == {"zeroBeforeEmbedGuard", "emptyMsgNotAlloc"}
+
 \* what the current tree does
-Quirks == AllQuirks
+Quirks == AllQuirks \ FixedQuirks
 
 Q(x) == x \in Quirks
 =============================================================================
